@@ -300,7 +300,10 @@ def create_props_metadata(
     else:
         # variable length property case
         varlength = True
-        dtype = values[0].dtype
+        # An empty object array (a graph without nodes/edges) has no element to take the
+        # dtype from: use int64, the dtype of the empty `data` array that
+        # `serialize_vlen_property_data` writes in that case.
+        dtype = values[0].dtype if len(values) > 0 else np.dtype("int64")
         # check that all arrays have the same dtype while we are here
         for array in values:
             if array.dtype != dtype:
